@@ -48,7 +48,17 @@ def gen_expr(rng, depth):
     return ("and" if r < 0.62 else "or", gen_expr(rng, depth - 1), gen_expr(rng, depth - 1))
 
 
+LIT_SUB = None     # when set: {original string value: replacement} applied to every string literal the generators print
+
+# contents that must stay inert inside a quoted literal: characters whose case mappings change their UTF-8 length, keywords,
+# clause separators, brackets
+EXOTIC = ["Diyarbakır", "ŉ boek", "Iğdır, Ağrı", "ﬁn ﬂ", "ǰΐև", "İstanbul", "K Å", "ß", "é", "日本", "🚀", " AS ", "x AS y", "as", "WHERE",
+          "a;b", "a]b", "a)b(", "{x}", "a,b", "--", "#", "'", "% _", "SELECT", "a=b", "NOT", "AND (", " LIMIT 1", "ı" * 40, "ﬁ" * 17 + " AS z"]
+
+
 def lit(v, rng=None):
+    if isinstance(v, str) and LIT_SUB and v in LIT_SUB:
+        return '"' + LIT_SUB[v] + '"'
     if isinstance(v, str):
         if rng is not None and v.isidentifier() and rng.random() < 0.3:
             return v       # bare word = string
@@ -116,6 +126,8 @@ def gen_command(rng):
         return fam, f"{rcase(rng, 'DEFINE')} {et}{ver} {rcase(rng, 'FIELDS')} {{ {fields} }}"
     if fam == "store":
         payload = {"k": rng.randint(-5, 5), "s": rng.choice(["x", "é", "a}b", "q\"uote"]), "f": rng.choice([1.5, 2.0, 1e3])}
+        if LIT_SUB and payload["s"] in LIT_SUB:
+            payload["s"] = LIT_SUB[payload["s"]]
         return fam, f"{rcase(rng, 'STORE')} {et} {rcase(rng, 'FOR')} {ctx} {rcase(rng, 'PAYLOAD')} {gen.payload_text(payload)}"
     if fam in ("query", "query_agg", "sequence"):
         s = f"{rcase(rng, rng.choice(['QUERY', 'FIND']))} {et}"
@@ -155,7 +167,8 @@ def gen_command(rng):
             s += f" {rcase(rng, 'RETURN')} [k, s]"
         return fam, s
     if fam == "remember":
-        return fam, f"{rcase(rng, 'REMEMBER')} {rcase(rng, 'QUERY')} {et} {rcase(rng, 'WHERE')} k > {rng.randint(0, 9)} {rcase(rng, 'AS')} m{rng.randint(0, 99)}"
+        cond = f"k > {rng.randint(0, 9)}" if rng.random() < 0.4 else print_expr(gen_expr(rng, rng.randint(0, 2)), rng, 0, 0.1)
+        return fam, f"{rcase(rng, 'REMEMBER')} {rcase(rng, 'QUERY')} {et} {rcase(rng, 'WHERE')} {cond} {rcase(rng, 'AS')} m{rng.randint(0, 99)}"
     if fam == "show":
         return fam, f"{rcase(rng, 'SHOW')} m{rng.randint(0, 99)}"
     if fam == "flush":
@@ -392,7 +405,62 @@ def structure_task(task, wdir, res):
         if a["r"] != b["r"] or (a["r"] == "ok" and norm_num(a["cmd"]) != norm_num(b["cmd"])):
             res.violation("keyword_case_changes_result", {"family": fam, "a": a["r"], "b": b["r"]}, f"{ta!r} -> {a['r']} ; {tb!r} -> {b['r']}",
                           {"a": ta, "b": tb, "seed": task["seed"]})
-    res.sample({"minimal": texts1[0], "respelled": texts2[0]})
+    # literal content invariance: what stands inside a quoted string literal must not change how the command around it is read
+    global LIT_SUB
+    SUBST = ["NL", "a b", "word", "x", "y z", "é", "a}b"]
+    pairs = []
+    tries = 0
+    while len(pairs) < task["n"] // 2 and tries < task["n"] * 4:
+        tries += 1
+        seed = rng.random()
+        LIT_SUB = None
+        fam, ta = gen_command(random.Random(seed))
+        if fam not in ("query", "query_agg", "sequence", "remember", "store"):
+            continue
+        ex = rng.choice(EXOTIC)
+        mp = {v: ex + ("" if i == 0 else str(i)) for i, v in enumerate(SUBST)}
+        LIT_SUB = mp
+        try:
+            _, tb = gen_command(random.Random(seed))
+        finally:
+            LIT_SUB = None
+        if ta == tb:
+            continue
+        pairs.append((fam, ta, tb, mp, ex))
+    ra, fa = run_vunit(wdir, cfg_path, [c[1] for c in pairs], True, 120)
+    rb, fb = run_vunit(wdir, cfg_path, [c[2] for c in pairs], True, 120)
+    if fa or fb:
+        # a child that dies on one of these inputs is reported by name: rerun one by one
+        for fam, ta, tb, mp, ex in pairs:
+            r1_, f1_ = run_vunit(wdir, cfg_path, [tb], True, 60)
+            if f1_ is not None:
+                res.violation("parse_aborted_process", {"generator": "literal_content", "family": fam}, f"{tb[:200]!r} -> child {f1_}", {"input": tb, "seed": task["seed"]})
+                return
+        res.inconclusive.append(f"literal-content batch failed: {fa or fb}")
+        return
+
+    def subst(v, mp):
+        if isinstance(v, dict):
+            return {k: (x if k == "context_id" else subst(x, mp)) for k, x in v.items()}   # contexts are not printed through lit()
+        if isinstance(v, list):
+            return [subst(x, mp) for x in v]
+        if isinstance(v, str) and v in mp:
+            return mp[v]
+        return v
+
+    for (fam, ta, tb, mp, ex), a, b in zip(pairs, ra, rb):
+        res.evaluations += 1
+        res.nontrivial(("literal_content", fam, EXOTIC.index(ex), b["r"]))
+        w = {"a": ta, "b": tb, "input": tb, "seed": task["seed"]}
+        sg = {"family": fam, "content": "case_mapping_changes_length" if EXOTIC.index(ex) < 7 or "ı" in ex or "ﬁ" in ex else "ascii_syntax_like" if ex.isascii() else "other_unicode"}
+        if b["r"] == "panic":
+            res.violation("parse_panicked", dict(sg, generator="literal_content", location=(b.get("loc") or "").split(": ")[0].replace("/repo/", "")),
+                          f"{tb[:200]!r} -> panic at {b.get('loc', '')[:200]}", w)
+        elif a["r"] != b["r"]:
+            res.violation("literal_content_changes_acceptance", sg, f"{ta!r} -> {a['r']} ; {tb!r} -> {b['r']} {str(b.get('msg', ''))[:120]}", w)
+        elif a["r"] == "ok" and norm_num(subst(a["cmd"], mp)) != norm_num(b["cmd"]):
+            res.violation("literal_content_changes_command", sg, f"{ta!r} vs {tb!r}: {json.dumps(b['cmd'], ensure_ascii=False)[:300]}", w)
+    res.sample({"minimal": texts1[0], "respelled": texts2[0], "literal_pair": list(pairs[0][1:3]) if pairs else None})
 
 
 def gen_command_plain(rng):
